@@ -560,6 +560,29 @@ class Evaluator:
             if not (opt[0] == 'agg' and opt[1].split('::')[-1] == okv):
                 events.append(Event('guard', name, (('variant', opt, name.split('::')[0]), okv), None, bb, fn.short))
             val = self.project(('down', opt, okv), 0, env)
+        elif name in ('Option::unwrap_or_else', 'Option::unwrap_or') and len(args) == 2 and ret_bb is not None:
+            # `opt.unwrap_or_else(f)` == match opt { Some(x) => x, None => f() }: fork the path
+            opt = args[0]
+            if name.endswith('_else') and args[1][0] == 'closure':
+                cf = self._closure_by_loc.get(args[1][1])
+                alt = self.closure_value(cf, args[1]) if cf is not None else None
+            elif name.endswith('_else'):
+                alt = None
+            else:
+                alt = args[1]
+            if alt is not None:
+                key = ('variant', opt, 'Option')
+                for lab, value in (('Some', self.project(('down', opt, 'Some'), 0, env)), ('None', alt)):
+                    if key in decided and decided[key] != ('is', lab):
+                        continue
+                    e2 = dict(env)
+                    ev2 = list(events)
+                    self.assign(fn, t.dest, value, e2, ev2, bb)
+                    d2 = dict(decided)
+                    d2[key] = ('is', lab)
+                    c2 = conds if key in decided else conds + [(key, lab)]
+                    self._walk(fn, ret_bb, e2, c2, ev2, visited, d2, stops, out, depth, entry)
+                return None
         elif name == 'Try::branch' and len(args) == 1:
             # `?` on an Option: Continue(v) iff Some(v)   (std semantics, stated assumption)
             val = ('try', args[0])
